@@ -138,7 +138,10 @@ class AbstractKernel:
             calls = []
             def grad(outputs, inputs, create_graph=False, **k):
                 calls.append(1)
-                return (self.g1.reshape(inputs.shape),) if len(calls) % 2 == 1 else (self.g2.reshape(inputs.shape),)
+                if len(calls) % 2 == 1:
+                    r = self.g1.reshape(inputs.shape); r.requires_grad = True      # create_graph=True: the slope is differentiable again
+                    return (r,)
+                return (self.g2.reshape(inputs.shape),)
             st.set_external('autograd.grad', grad)
         else:
             self.g1 = T.stack([T.stack(r) for r in g1]); self.g2 = T.stack([T.stack(r) for r in g2])
